@@ -269,13 +269,15 @@ impl Decimal {
     pub const fn zero() -> (r: Decimal) ensures r.0 == 0 { Decimal(0) }
     /// decimal.rs: `checked_from_ratio(..)`: panics "Denominator must not be zero" / "Multiplication overflow"
     #[verifier::external_body]
-    pub fn from_ratio(n: impl IntoU128, d: impl IntoU128) -> (r: Decimal)
+    pub fn from_ratio(numerator: impl IntoU128, denominator: impl IntoU128) -> (r: Decimal)
         requires
-            d.uv() != 0,
-            decimal_ratio(n.uv() as nat, d.uv() as nat) <= u128::MAX,
+            denominator.uv() != 0,
+            decimal_ratio(numerator.uv() as nat, denominator.uv() as nat) <= u128::MAX,
         ensures
-            r.0 as nat == decimal_ratio(n.uv() as nat, d.uv() as nat),
+            r.av() as nat == decimal_ratio(numerator.uv() as nat, denominator.uv() as nat),
     { unimplemented!() }
+    /// the atomics (value * 10^18) as an integer
+    pub open spec fn av(self) -> u128 { self.0 }
     #[verifier::external_body]
     pub fn to_string(&self) -> (r: String)
         ensures r@ == decimal_str(self.0 as nat)
@@ -600,10 +602,10 @@ impl Decimal {
     pub fn permille(x: u64) -> (r: Decimal) ensures r.0 == x as u128 * 1_000_000_000_000_000 { Decimal(x as u128 * 1_000_000_000_000_000) }
     pub fn atomics(&self) -> (r: Uint128) ensures r.0 == self.0 { Uint128(self.0) }
     #[verifier::external_body]
-    pub fn checked_from_ratio(n: impl IntoU128, d: impl IntoU128) -> (r: Result<Decimal, CheckedMultiplyRatioError>)
+    pub fn checked_from_ratio(numerator: impl IntoU128, denominator: impl IntoU128) -> (r: Result<Decimal, CheckedMultiplyRatioError>)
         ensures
-            r is Ok <==> d.uv() != 0 && decimal_ratio(n.uv() as nat, d.uv() as nat) <= u128::MAX,
-            r is Ok ==> r->Ok_0.0 as nat == decimal_ratio(n.uv() as nat, d.uv() as nat),
+            r is Ok <==> denominator.uv() != 0 && decimal_ratio(numerator.uv() as nat, denominator.uv() as nat) <= u128::MAX,
+            r is Ok ==> r->Ok_0.av() as nat == decimal_ratio(numerator.uv() as nat, denominator.uv() as nat),
     { unimplemented!() }
     pub fn to_uint_floor(self) -> (r: Uint128) ensures r.0 == self.0 / 1_000_000_000_000_000_000 { Uint128(self.0 / 1_000_000_000_000_000_000) }
 }
